@@ -14,6 +14,7 @@ SHARDS = {'thorough': 16}
 ANCHORS = ['pymodbus/server/sync.py', 'pymodbus/server/async_io.py', 'pymodbus/server/asynchronous.py', 'pymodbus/framer/__init__.py']
 
 EXCUSES = {
+    'broadcast-stops-at-failing-unit': ({'wrong-content'}, 'a broadcast write stops at the first unit whose datastore raises: later reads of the units behind it return the old values'),
     'rtu-one-frame-per-call': ({'missing'}, 'RTU framer handles one frame per read: later frames of a pipelined read are answered late or never'),
     'binary-pipelined-frame-skipped': ({'missing'}, 'binary framer skips every second back-to-back frame'),
     'foreign-unit-frame-discards-rest-of-read': ({'missing'}, 'a frame for a non-hosted unit makes the framer discard the rest of that read'),
@@ -26,6 +27,9 @@ def check(run, case):
     ex = SH.execute(case)
     res = ex['res']
     regs = SH.regions(case)
+    if (case.get('failing') and case['flags'].get('broadcast_enable') and not case['layout']['single'] and len(case['layout']['units']) >= 2
+            and any(fr[0] == 0 and fr[2]['fc'] in (5, 6, 15, 16, 22, 23) for rd in case['reads'] for fr in rd)):
+        regs = set(regs) | {'broadcast-stops-at-failing-unit'}
     for slug in regs:
         run.region(slug)
     if not regs:
@@ -83,8 +87,9 @@ def run(run):
                 for rd in case['reads']:
                     for fr in rd:
                         fr[0] = 0
-            if i % 3 == 2 and framing != 'tls' and front in ('aio-tcp', 'aio-udp', 'sync-udp', 'tw-udp'):
-                # datagrams from several senders; several reads queued before the asyncio handler task runs
+            if i % 3 == 2 and framing != 'tls' and front in ('aio-tcp', 'aio-udp', 'sync-udp', 'tw-udp', 'sync-tcp'):
+                # datagrams from several senders; several reads queued before the asyncio handler task runs; idle periods longer
+                # than the receive timeout of a threaded TCP connection (between two whole reads, so no frame is cut by them)
                 SH.add_delivery(r, case)
                 run.count('histories_with_delivery_pattern')
             if i % 6 == 4 and framing != 'tls':
